@@ -352,3 +352,204 @@ def f64op(t):
     except ValueError:
         return "ValueError"
     raise ValueError(op)
+
+
+# ---------------------------------------------------------------- stream reader ops
+import socket as _socket
+from pynmeagps import NMEAReader
+from pyrtcm import RTCMReader
+
+NCODES = ["NMEAMessageError", "NMEATypeError", "NMEAParseError", "NMEAStreamError"]
+RCODES = ["RTCMMessageError", "RTCMParseError", "RTCMStreamError", "RTCMTypeError"]
+FOREIGN = []          # exception type names seen escaping a foreign parser, index = crash code
+READ_CATCH = None     # names in read()'s catch list (facts.json), set by the runner
+
+
+def foreign_code(name):
+    if name not in FOREIGN:
+        FOREIGN.append(name)
+    return FOREIGN.index(name)
+
+
+class FakeSock(_socket.socket):
+    """a socket whose recv() delivers a prescribed chunk schedule, then closes or times out"""
+
+    def __init__(self, chunks, end="close"):
+        super().__init__(_socket.AF_INET, _socket.SOCK_STREAM)
+        self._chunks = list(chunks)
+        self._end = end
+        self.recv_sizes = []
+
+    def recv(self, n, *a):
+        self.recv_sizes.append(n)
+        if self._chunks:
+            c = self._chunks[0]
+            if len(c) <= n:
+                self._chunks.pop(0)
+                return c
+            self._chunks[0] = c[n:]
+            return c[:n]
+        if self._end == "close":
+            return b""
+        raise TimeoutError("timed out")
+
+
+def verdict_for(proto, raw, mode, val):
+    """ask the real foreign parser; returns 'ok' | 'rN' | 'cN'"""
+    try:
+        if proto == "nmea":
+            r = NMEAReader.parse(raw, validate=val, msgmode=mode)
+        else:
+            r = RTCMReader.parse(raw, validate=val, labelmsm=1)
+        return "ok" if r is not None else "n"
+    except Exception as e:  # noqa
+        n = type(e).__name__
+        codes = NCODES if proto == "nmea" else RCODES
+        if n in codes and (READ_CATCH is None or n in READ_CATCH):
+            return f"r{codes.index(n)}"
+        return f"c{foreign_code(n)}"
+
+
+def errname(e):
+    return excname(e)
+
+
+def reader_run(stream_obj, q, filt, parsing, mode, val, bf, bufsize=4096):
+    calls = []
+    items = []
+    raised = "none"
+    crashed = "none"
+    try:
+        rdr = UBXReader(stream_obj, msgmode=mode, validate=val, protfilter=filt, quitonerror=q,
+                        parsebitfield=bf, parsing=parsing, bufsize=bufsize,
+                        errorhandler=lambda e: calls.append(errname(e)))
+        for raw, parsed in rdr:
+            pr = uh.protocol(raw)
+            proto = {2: "ubx", 1: "nmea", 4: "rtcm"}.get(pr, "?")
+            if parsed is None:
+                p = "None"
+            elif proto == "ubx":
+                p = "{" + msgdump(parsed) + "}"
+            else:
+                p = "P"
+            items.append(f"{proto}:{raw.hex()}:{p}")
+    except Exception as e:  # noqa
+        n = errname(e)
+        known = ["UBXMessageError", "UBXTypeError", "UBXParseError", "UBXStreamError"] + NCODES + RCODES
+        if q == 2 and n in known and (READ_CATCH is None or n in READ_CATCH):
+            raised = n
+        else:
+            crashed = n
+    return f"items=[{' '.join(items)}] calls=[{','.join(calls)}] raised={raised} crashed={crashed}"
+
+
+_CODE_TOKEN = re.compile(r"\b([NR])(\d+)\b")
+_CRASH_TOKEN = re.compile(r"crashed=(ubx|nmea|rtcm):(\d+)")
+
+EXC_BY_CODE = ["UBXParseError", "UBXMessageError", "UBXTypeError", "UBXStreamError", "IndexError", "TypeError",
+               "ValueError", "OverflowError", "AttributeError", "struct.error", "KeyError", "ZeroDivisionError",
+               "UnboundLocalError", "UnicodeError", "MemoryError"]
+
+
+def canon_readp_model(line):
+    """map the model's numeric NMEA/RTCM verdict codes back to exception type names"""
+    if not line.startswith("items=["):
+        return line
+    head, tail = line.split("] calls=[", 1)
+
+    def rep(mo):
+        t = NCODES if mo.group(1) == "N" else RCODES
+        i = int(mo.group(2))
+        return t[i] if i < len(t) else mo.group(0)
+
+    def crep(mo):
+        c = int(mo.group(2))
+        if mo.group(1) == "ubx":
+            return "crashed=" + (EXC_BY_CODE[c] if c < len(EXC_BY_CODE) else str(c))
+        return "crashed=" + (FOREIGN[c] if c < len(FOREIGN) else f"?{c}")
+    tail = _CODE_TOKEN.sub(rep, tail)
+    tail = _CRASH_TOKEN.sub(crep, tail)
+    return head + "] calls=[" + tail
+
+
+def handle_readp(t):
+    """readp <src> <q> <filter> <parsing> <mode> <val> <bf> <hex> [verdicts…]"""
+    src, q, filt, parsing, mode, val, bf = t[1], int(t[2]), int(t[3]), t[4] == "1", int(t[5]), int(t[6]), t[7] == "1"
+    data = unhx(t[8])
+    if src == "file":
+        return reader_run(io.BytesIO(data), q, filt, parsing, mode, val, bf)
+    spec = src[5:]
+    end = "close"
+    if spec.endswith("!"):           # '!' marks a timeout end (python side only; same model)
+        end = "timeout"
+        spec = spec[:-1]
+    lens = [int(x) for x in spec.split(",") if x]
+    chunks = []
+    rest = data
+    for n in lens:
+        if not rest:
+            break
+        chunks.append(rest[:n])
+        rest = rest[n:]
+    if rest:
+        chunks.append(rest)
+    bufsize = max([len(c) for c in chunks] + [1])
+    sock = FakeSock(chunks, end)
+    try:
+        return reader_run(sock, q, filt, parsing, mode, val, bf, bufsize=bufsize)
+    finally:
+        sock.close()
+
+
+def handle_sockread(t):
+    """sockread <lens> <ops> <hex>"""
+    from pyubx2.socket_wrapper import SocketWrapper
+    data = unhx(t[3])
+    lens = [int(x) for x in t[1].split(",") if x]
+    chunks, rest = [], data
+    for n in lens:
+        if not rest:
+            break
+        chunks.append(rest[:n]); rest = rest[n:]
+    if rest:
+        chunks.append(rest)
+    sock = FakeSock(chunks, "close")
+    try:
+        w = SocketWrapper(sock, bufsize=max([len(c) for c in chunks] + [1]))
+        out = []
+        dead = False
+        for o in [x for x in t[2].split(",") if x]:
+            if dead:
+                out.append("dead"); continue
+            if o == "L":
+                d = w.readline()
+                if len(d) == 0:
+                    out.append("eof"); dead = True
+                elif d[-1:] != b"\n":
+                    out.append("short"); dead = True
+                else:
+                    out.append("ok:" + hx(d))
+            else:
+                n = int(o)
+                d = w.read(n)
+                if len(d) == 0 and n > 0:
+                    out.append("eof"); dead = True
+                elif 0 < len(d) < n:
+                    out.append("short"); dead = True
+                else:
+                    out.append("ok:" + hx(d))
+        return " ".join(out)
+    finally:
+        sock.close()
+
+
+_handle_core = handle
+
+
+def handle(line):  # noqa: F811
+    t = line.split()
+    if t[0] == "readp":
+        return handle_readp(t)
+    if t[0] == "sockread":
+        return handle_sockread(t)
+    return _handle_core(line)
